@@ -1,7 +1,7 @@
 // extract-C07: the choices interp/run.go makes at the host/script boundary (lean/YaegiVerif/Model/Boundary.lean `Facts`):
 //
 //	arms / outerArms       the ordered arms of callBin's per-argument switches (guard → effect)
-//	recvGuardNonIface, rcvrCond   the receiver-offset rule
+//	recvGuardNonIface, recvGuardGetMethod, rcvrCond   the receiver-offset rule
 //	variadicSub            variadic = funcType.NumIn() - k
 //	argType* / defType*    comparison and `.Elem()` of the type chosen for argument i (constant conversion / wrapper target)
 //	callArms / fvArms      Call versus CallSlice versus the helper callVariadic: the guarded choices of callBin's callFn and of
@@ -531,12 +531,18 @@ func main() {
 
 		// ---- receiver offset
 		recvGuard, rcvrCond := "false", ".unrecognised"
+		recvGetMethod := "false"
 		if n := find(cb, func(n ast.Node) bool {
 			is, ok := n.(*ast.IfStmt)
 			return ok && is.Init != nil && str(is.Init) == "recv := c0.recv"
 		}); n != nil {
 			is := n.(*ast.IfStmt)
 			switch str(is.Cond) {
+			case "recv != nil && c0.action == aGetMethod && !isInterface(recv.node.typ)":
+				// since b1e4f7b: only a method selected at the call, not a variable holding a method value
+				recvGuard, recvGetMethod = "true", "true"
+			case "recv != nil && c0.action == aGetMethod":
+				recvGetMethod = "true"
 			case "recv != nil && !isInterface(recv.node.typ)":
 				recvGuard = "true"
 			case "recv != nil":
@@ -1302,6 +1308,7 @@ def facts : Facts :=
   { arms := %s,
     outerArms := %s,
     recvGuardNonIface := %s,
+    recvGuardGetMethod := %s,
     rcvrCond := %s,
     variadicSub := %s,
     argTypeCmp := %s,
@@ -1352,7 +1359,7 @@ def notes : List String := %s
 def sourceHashes : List (String × String) :=
   %s
 end YaegiVerif.Generated.C07
-`, arms, common.LeanStrList(outerArms), recvGuard, rcvrCond, lo(variadicSub), argCmp, argElem, argSpread, defCmp, defElem,
+`, arms, common.LeanStrList(outerArms), recvGuard, recvGetMethod, rcvrCond, lo(variadicSub), argCmp, argElem, argSpread, defCmp, defElem,
 			"["+strings.Join(callArms, ", ")+"]", "["+strings.Join(fvArms, ", ")+"]", callArgArms, hostBind, bindCopies, cvGuard, cvCmp, lo(cvSub), cvThen, cvZero, cvElse,
 			deferCall, deferWrapBin, deferWrapCall, deferWrapKind, deferWrapVariadic, assignSrc, assignDst, retDst, retBase, defDst, branchDst, branchStore, nestedRead,
 			wrapFrame, wrapPerCall, recvAtCreation, recvHeldAtCall, ifaceHeld, getFuncPerCall, wrapBase, lo(wrapShift), lo(wLo), wHi, skipShort, lo(gLo), gHi, common.LeanStrList(notes), hashes)
